@@ -13,7 +13,25 @@ pub struct File {
     _p: core::marker::PhantomData<u8>,
 }
 
+#[verifier::external_body]
+pub struct Metadata {
+    _p: core::marker::PhantomData<u8>,
+}
+
+impl Metadata {
+    /// TRUSTED: SOME file size (unconstrained: 0 for the empty file a killed `create` leaves behind)
+    #[verifier::external_body]
+    pub fn len(&self) -> (r: u64) {
+        unimplemented!()
+    }
+}
+
 impl File {
+    #[verifier::external_body]
+    pub fn metadata(&self) -> (r: Result<Metadata>) {
+        unimplemented!()
+    }
+
     #[verifier::external_body]
     pub fn seek(&mut self, pos: SeekFrom) -> (r: Result<u64>) {
         unimplemented!()
